@@ -94,7 +94,8 @@ def check_stats(res, sv, report, obs_sigma=None):
             if abs(lhs - rhs) > 1e-4 * max(abs(cxx) + abs(cyy), 1e-12):
                 report("ellipse_alpha", "ellipse of %s: alpha %r is not an eigen-direction of [[%r,%r],[.,%r]]" % (el["id"], el["alpha"], cxx, cxy, cyy))
     # observations: h = homogenised q_bb from the reported stdev of the adjusted observation
-    if obs_sigma is not None and res["used"] in ("apriori", "aposteriori") and m0 > 0:
+    # an accidentally consistent network adjusted with the a posteriori deviation has m0 = rounding noise: nothing to compare
+    if obs_sigma is not None and res["used"] in ("apriori", "aposteriori") and m0 > 1e-6 * res["apriori"]:
         red = 0.0
         ok = True
         for o, s_obs in zip(res["obs"], obs_sigma):
